@@ -23,7 +23,6 @@ Definition NPinv (s : pstate) : Prop :=
   Forall pend_ok (ps_pending s) /\ bwf (ps_builder s) /\ names_ok s /\ ps_dbg s = false.
 Definition NPrel (s s' : pstate) : Prop :=
   pb_parents (ps_builder s') = pb_parents (ps_builder s) /\
-  (length (pb_children (ps_builder s)) <= length (pb_children (ps_builder s')))%nat /\
   ptr_current (ps_rec s') = ptr_current (ps_rec s).
 
 Definition CN : pcfg := {| cInv := NPinv; cWeak := NPinv; cRel := NPrel; cPanicOk := False |}.
@@ -32,7 +31,7 @@ Lemma CN_rel : prel_ok CN.
 Proof.
   constructor; cbn; auto.
   - intros s. unfold NPrel. auto.
-  - intros a b c (H1 & H2 & H3) (H4 & H5 & H6). unfold NPrel. repeat split; try congruence. lia.
+  - intros a b c (H1 & H3) (H4 & H6). unfold NPrel. split; congruence.
 Qed.
 
 Lemma parents_ok_mono ps n m : parents_ok ps n -> (n <= m)%nat -> parents_ok ps m.
@@ -200,7 +199,8 @@ Qed.
 Lemma push_ignored_runN s :
   NPinv s ->
   exists s', p_push_ignored s = POk (tt, s') /\ NPinv s' /\ NPrel s s' /\ ps_pending s' = [] /\
-             ps_cur s' = ps_cur s /\ ps_items s' = ps_items s.
+             ps_cur s' = ps_cur s /\ ps_items s' = ps_items s /\
+             (length (pb_children (ps_builder s)) <= length (pb_children (ps_builder s')))%nat.
 Proof.
   intros (Hp & Hb & Hn & Hd). unfold p_push_ignored.
   destruct (push_pending_list_N _ _ Hp Hb) as (b' & -> & H1 & H2 & H3).
@@ -333,7 +333,8 @@ Lemma finish_node_inside k fc ps s :
   inside k fc ps s ->
   exists s', p_finish_node s = POk (tt, s') /\ NPinv s' /\
              pb_parents (ps_builder s') = ps /\ length (pb_children (ps_builder s')) = S fc /\
-             ps_rec s' = ps_rec s.
+             ps_rec s' = ps_rec s /\
+             (exists c rest, pb_children (ps_builder s') = PNode k c :: rest /\ length rest = fc).
 Proof.
   intros ((Hp & Hb & Hn & Hd) & Hpar & Hlen). unfold p_finish_node, p_lift_b, pb_finish_node. rewrite Hpar.
   destruct (Nat.ltb (length (pb_children (ps_builder s))) fc) eqn:Hlt.
@@ -341,35 +342,75 @@ Proof.
   eexists. split; [reflexivity|]. psimpl. cbn [pb_parents pb_children].
   assert (Hl : length (skipn (length (pb_children (ps_builder s)) - fc) (pb_children (ps_builder s))) = fc).
   { rewrite skipn_length. lia. }
+  split; [|split; [reflexivity|split; [cbn [length]; now rewrite Hl|split; [reflexivity|eauto]]]].
   repeat split; auto.
-  - unfold bwf in *. psimpl. cbn [pb_parents pb_children length]. rewrite Hl. rewrite Hpar in Hb. cbn in Hb.
-    destruct Hb as [_ Hb]. eapply parents_ok_mono; eauto.
-  - cbn [length]. now rewrite Hl.
+  unfold bwf in *. psimpl. cbn [pb_parents pb_children length]. rewrite Hl. rewrite Hpar in Hb. cbn in Hb.
+  destruct Hb as [_ Hb]. eapply parents_ok_mono; eauto.
 Qed.
 
-Lemma node_N A k (body : PM A) : spec CN body -> spec CN (p_node k body).
+Lemma node_len_J_N A k (body : PM A) (J : pstate -> Prop) :
+  (forall s s', ptr_current (ps_rec s') = ptr_current (ps_rec s) -> J s -> J s') ->
+  post CN (fun s => NPinv s /\ J s) NPinv body ->
+  forall s, NPinv s -> J s ->
+    match p_node k body s with
+    | POk (_, s') => NPinv s' /\ NPrel s s' /\
+                     (length (pb_children (ps_builder s)) <= length (pb_children (ps_builder s')))%nat /\
+                     (ps_pending s = [] -> exists c rest, pb_children (ps_builder s') = PNode k c :: rest /\
+                                                         length rest = length (pb_children (ps_builder s)))
+    | PPanic _ => False
+    | POutOfFuel => True
+    end.
 Proof.
-  intros Hbody s Hs. unfold p_node, p_bind at 1, p_start_node, p_bind at 1.
-  destruct (push_ignored_runN s Hs) as (s1 & -> & Hi1 & Hr1 & _).
+  intros HJ Hbody s Hs Hj. unfold p_node, p_bind at 1, p_start_node, p_bind at 1.
+  assert (Hnil : ps_pending s = [] -> forall s1, p_push_ignored s = POk (tt, s1) -> ps_builder s1 = ps_builder s).
+  { intros Hp s1. unfold p_push_ignored. rewrite Hp. cbn. intros [= <-]. reflexivity. }
+  destruct (push_ignored_runN s Hs) as (s1 & E1 & Hi1 & Hr1 & _ & _ & _ & Hlen1). rewrite E1.
   unfold p_bind at 1, p_modify at 1.
   destruct (start_raw_run k s1 Hi1) as (Hi2 & Hpar2 & Hch2). cbv zeta in *.
   set (s2 := ps_set_builder _ s1) in *.
   pose proof (skip_ignored_N s2 Hi2) as Hsk.
   destruct (p_skip_ignored s2) as [[u3 s3]| |]; [|exact Hsk|exact I]. destruct Hsk as [Hi3 Hr3].
   unfold p_bind at 1.
-  pose proof (Hbody s3 Hi3) as Hb.
+  assert (Hj3 : J s3).
+  { eapply HJ; [|exact Hj]. destruct Hr3 as (_ & Hc3). destruct Hr1 as (_ & Hc1). rewrite Hc3. exact Hc1. }
+  pose proof (Hbody s3 (conj Hi3 Hj3)) as Hb.
   destruct (body s3) as [[r s4]| |]; [|exact Hb|exact I]. destruct Hb as [Hi4 Hr4].
   assert (Hin : inside k (length (pb_children (ps_builder s1))) (pb_parents (ps_builder s1)) s4).
-  { destruct Hr3 as (Hp3 & Hl3 & _). destruct Hr4 as (Hp4 & Hl4 & _).
-    split; [exact Hi4|]. split; [congruence|]. rewrite Hch2 in Hl3. lia. }
+  { destruct Hr3 as (Hp3 & _). destruct Hr4 as (Hp4 & _).
+    assert (Hpar4 : pb_parents (ps_builder s4) = (k, length (pb_children (ps_builder s1))) :: pb_parents (ps_builder s1))
+      by congruence.
+    split; [exact Hi4|]. split; [exact Hpar4|].
+    destruct Hi4 as (_ & Hb4 & _). unfold bwf in Hb4. rewrite Hpar4 in Hb4. cbn in Hb4. tauto. }
   unfold p_bind at 1.
-  destruct (finish_node_inside _ _ _ _ Hin) as (s5 & -> & Hi5 & Hp5 & Hl5 & Hrec5).
+  destruct (finish_node_inside _ _ _ _ Hin) as (s5 & -> & Hi5 & Hp5 & Hl5 & Hrec5 & Hshape5).
   cbn [p_ret]. split; [exact Hi5|].
-  destruct Hr1 as (Hp1 & Hl1 & Hc1). destruct Hr3 as (Hp3 & Hl3 & Hc3). destruct Hr4 as (Hp4 & Hl4 & Hc4).
-  unfold NPrel. repeat split.
-  - congruence.
-  - lia.
-  - rewrite Hrec5, Hc4, Hc3. exact Hc1.
+  destruct Hr1 as (Hp1 & Hc1). destruct Hr3 as (Hp3 & Hc3). destruct Hr4 as (Hp4 & Hc4).
+  split; [|split; [lia|]].
+  - unfold NPrel. split; [congruence|]. rewrite Hrec5, Hc4, Hc3. exact Hc1.
+  - intros Hp. destruct Hshape5 as (c & rest & Hch & Hlr). exists c, rest. split; [exact Hch|].
+    rewrite Hlr, (Hnil Hp s1 E1). reflexivity.
+Qed.
+
+Lemma node_len_N A k (body : PM A) :
+  spec CN body ->
+  forall s, NPinv s ->
+    match p_node k body s with
+    | POk (_, s') => NPinv s' /\ NPrel s s' /\
+                     (length (pb_children (ps_builder s)) <= length (pb_children (ps_builder s')))%nat
+    | PPanic _ => False
+    | POutOfFuel => True
+    end.
+Proof.
+  intros Hbody s Hs.
+  assert (H : post CN (fun s => NPinv s /\ True) NPinv body) by (eapply post_weaken; [| |exact Hbody]; cbn; tauto).
+  pose proof (node_len_J_N A k body (fun _ => True) (fun _ _ _ _ => I) H s Hs I) as Hn.
+  destruct (p_node k body s) as [[a s']| |]; auto. tauto.
+Qed.
+
+Lemma node_N A k (body : PM A) : spec CN body -> spec CN (p_node k body).
+Proof.
+  intros Hbody s Hs. pose proof (node_len_N A k body Hbody s Hs) as H.
+  destruct (p_node k body s) as [[a s']| |]; auto. tauto.
 Qed.
 
 (* ---- recursion guard *)
@@ -398,17 +439,411 @@ Proof.
   pose proof (set_rec_inv t s Hs) as Hi1.
   destruct b.
   - specialize (Hl _ Hi1). destruct (l (ps_set_rec t s)) as [[r s2]| |]; auto.
-    destruct Hl as [Hi2 (Hp2 & Hl2 & Hc2)]. split; [exact Hi2|]. unfold NPrel. psimpl.
-    repeat split; auto. rewrite Hc2. auto.
+    destruct Hl as [Hi2 (Hp2 & Hc2)]. split; [exact Hi2|]. unfold NPrel. psimpl.
+    split; auto. rewrite Hc2. auto.
   - unfold p_bind at 1. specialize (Hb _ Hi1). destruct (body (ps_set_rec t s)) as [[x s2]| |]; auto.
-    destruct Hb as [Hi2 (Hp2 & Hl2 & Hc2)]. psimpl.
+    destruct Hb as [Hi2 (Hp2 & Hc2)]. psimpl.
     unfold p_bind at 1, p_rec_decrement, ptracker_decrement.
     rewrite Hc2, (Hf eq_refl).
     destruct (ptr_current (ps_rec s) + 1 =? 0) eqn:Hz; [lia|].
     set (t3 := Build_ptracker _ _ _).
     pose proof (set_rec_inv t3 s2 Hi2) as Hi3.
     specialize (Hk x _ Hi3). destruct (k x (ps_set_rec t3 s2)) as [[r s4]| |]; auto.
-    destruct Hk as [Hi4 (Hp4 & Hl4 & Hc4)]. psimpl. split; [exact Hi4|]. unfold NPrel.
-    repeat split; try congruence; try lia.
+    destruct Hk as [Hi4 (Hp4 & Hc4)]. psimpl. split; [exact Hi4|]. unfold NPrel.
+    split; [congruence|].
     rewrite Hc4. unfold t3. cbn [ptr_current ps_rec ps_set_rec]. lia.
 Qed.
+(* ---- names *)
+Lemma validate_name_N n : is_valid_name n = true -> spec CN (g_validate_name n).
+Proof.
+  intros Hn. apply frame_N. intros s. rewrite validate_name_valid by exact Hn.
+  eexists; eexists; split; [reflexivity|]. unfold keeps. auto 10.
+Qed.
+
+Lemma cur_valid s t : NPinv s -> ps_cur s = Some t -> tok_kind t = TkName -> is_valid_name (tok_data t) = true.
+Proof.
+  intros (_ & _ & Hn & _) Hc Hk. unfold names_ok in Hn. rewrite Hc in Hn. cbn [cur_item app] in Hn.
+  inversion Hn as [|? ? H1 _]; subst. rewrite Hk in H1. exact H1.
+Qed.
+
+Lemma name_N : spec CN g_name.
+Proof.
+  unfold g_name. apply post_peek_token_case.
+  - eapply post_weaken; [| |apply err_N]; cbn; tauto.
+  - intros t. destruct (tkind_eqb (tok_kind t) TkName) eqn:Hk.
+    + apply tkind_eqb_eq in Hk.
+      apply (post_pre_fact CN (is_valid_name (tok_data t) = true)).
+      * intros s [Hi Hc]. eapply cur_valid; eauto.
+      * intros Hv. eapply post_weaken; [| |apply node_N]; cbn; try tauto.
+        eapply post_bind; [apply CN_rel|apply validate_name_N; exact Hv|intros; apply bump_N].
+    + eapply post_weaken; [| |apply err_N]; cbn; tauto.
+Qed.
+
+(* ---- ty::parse *)
+Definition Jb (ps : list (skind * nat)) (cp : nat) (s : pstate) : Prop :=
+  pb_parents (ps_builder s) = ps /\ (cp <= length (pb_children (ps_builder s)))%nat.
+
+Lemma peek_token_builder s o s' : p_peek_token s = POk (o, s') -> ps_builder s' = ps_builder s.
+Proof.
+  unfold p_peek_token. destruct (ps_cur s).
+  - intros [= <- <-]. reflexivity.
+  - destruct (p_next_token_loop _ _) as [o1 s1] eqn:E. intros [= <- <-]. apply next_token_loop_NP in E.
+    destruct E as ((Hb & _) & _). exact Hb.
+Qed.
+Lemma skip_ignored_builder s a s' : p_skip_ignored s = POk (a, s') -> ps_builder s' = ps_builder s.
+Proof.
+  unfold p_skip_ignored. cbv zeta. destruct (ps_cur s) as [t|] eqn:Hc.
+  - destruct (p_is_ignored_kind _); intros [= <- <-]; [|reflexivity].
+    match goal with |- ps_builder (p_skip_loop ?it ?s0) = _ =>
+      destruct (skip_loop_NP it s0 eq_refl) as ((Hb & _) & _) end. exact Hb.
+  - intros [= <- <-]. destruct (skip_loop_NP (ps_items s) s Hc) as ((Hb & _) & _). exact Hb.
+Qed.
+
+Lemma post_builder_J {A} ps cp (P Q : pstate -> Prop) (m : PM A) :
+  post CN P Q m -> (forall s a s', m s = POk (a, s') -> ps_builder s' = ps_builder s) ->
+  post CN (fun s => P s /\ Jb ps cp s) (fun s => Q s /\ Jb ps cp s) m.
+Proof.
+  intros Hm Hb s [Hp Hj]. specialize (Hm s Hp). destruct (m s) as [[a s']| |] eqn:E; auto.
+  destruct Hm as [Hq Hr]. split; [split; [exact Hq|]|exact Hr]. unfold Jb in *. rewrite (Hb _ _ _ E). exact Hj.
+Qed.
+
+Lemma peek_is_N k : spec CN (g_peek_is k).
+Proof. unfold g_peek_is. eapply post_bind; [apply CN_rel|apply peek_N|intros; apply ret_N]. Qed.
+Lemma peek_is_builder k s a s' : g_peek_is k s = POk (a, s') -> ps_builder s' = ps_builder s.
+Proof.
+  unfold g_peek_is, p_peek. intros E. apply bind_ok in E as (o & s1 & E & Er). unfold p_ret in Er. injection Er as _ <-.
+  apply bind_ok in E as (o2 & s2 & E & Er). unfold p_ret in Er. injection Er as _ <-.
+  eapply peek_token_builder; eauto.
+Qed.
+
+Lemma wrap_then_finish_N ps cp k (m : PM unit) :
+  parents_ok ps cp -> spec CN m ->
+  post CN (fun s => NPinv s /\ Jb ps cp s) (fun s => NPinv s /\ Jb ps cp s)
+       (p_wrap_node cp k ;; m ;; p_finish_node).
+Proof.
+  intros Hps Hm s [Hi [Hpar Hlen]]. unfold p_bind at 1, p_wrap_node, p_lift_b, pb_start_node_at.
+  destruct (Nat.ltb (length (pb_children (ps_builder s))) cp) eqn:Hlt; [apply Nat.ltb_lt in Hlt; lia|].
+  assert (Hwrapped : exists b, match pb_parents (ps_builder s) with
+                               | (_, fc) :: _ => if Nat.ltb cp fc then PPanic PnBuilderCheckpointParent
+                                                 else POk {| pb_parents := (k, cp) :: pb_parents (ps_builder s);
+                                                             pb_children := pb_children (ps_builder s) |}
+                               | [] => POk {| pb_parents := (k, cp) :: pb_parents (ps_builder s);
+                                              pb_children := pb_children (ps_builder s) |}
+                               end = POk b /\ b = {| pb_parents := (k, cp) :: ps; pb_children := pb_children (ps_builder s) |}).
+  { rewrite Hpar. destruct ps as [|[k0 fc] r].
+    - eexists. split; reflexivity.
+    - cbn in Hps. destruct Hps as [Hfc _]. destruct (Nat.ltb cp fc) eqn:E.
+      + apply Nat.ltb_lt in E. lia.
+      + eexists. split; reflexivity. }
+  destruct Hwrapped as (b & -> & ->).
+  set (s1 := ps_set_builder _ s).
+  assert (Hi1 : NPinv s1).
+  { destruct Hi as (Hp & Hb & Hn & Hd). repeat split; auto. all: unfold bwf; cbn; split; [exact Hlen|exact Hps]. }
+  unfold p_bind at 1. specialize (Hm s1 Hi1). destruct (m s1) as [[u s2]| |]; auto.
+  destruct Hm as [Hi2 (Hp2 & Hc2)].
+  assert (Hin : inside k cp ps s2).
+  { assert (Hpar2 : pb_parents (ps_builder s2) = (k, cp) :: ps) by (rewrite Hp2; reflexivity).
+    split; [exact Hi2|]. split; [exact Hpar2|].
+    destruct Hi2 as (_ & Hb2 & _). unfold bwf in Hb2. rewrite Hpar2 in Hb2. cbn in Hb2. tauto. }
+  destruct (finish_node_inside _ _ _ _ Hin) as (s3 & -> & Hi3 & Hp3 & Hl3 & Hr3 & _).
+  split; [split; [exact Hi3|split; [exact Hp3|lia]]|].
+  cbn [CN cRel]. unfold NPrel. rewrite Hp3, Hr3, Hc2. cbn. auto.
+Qed.
+
+Lemma parse_tail_N ps cp :
+  parents_ok ps cp ->
+  post CN (fun s => NPinv s /\ Jb ps cp s) NPinv
+    (p_skip_ignored ;;
+     b <- g_peek_is TkBang ;;
+     p_when b (p_wrap_node cp SK_NON_NULL_TYPE ;; p_eat SK_BANG ;; p_finish_node) ;;
+     p_skip_ignored ;;
+     p_ret GTyOk).
+Proof.
+  intros Hps.
+  eapply post_bind; [apply CN_rel|apply post_builder_J; [apply skip_ignored_N|apply skip_ignored_builder]|intros _].
+  eapply post_bind; [apply CN_rel|apply post_builder_J; [apply peek_is_N|apply peek_is_builder]|intros b].
+  eapply post_bind with (Q := NPinv); [apply CN_rel| |intros _].
+  - destruct b; cbn [p_when].
+    + eapply post_weaken; [| |apply (wrap_then_finish_N ps cp SK_NON_NULL_TYPE (p_eat SK_BANG) Hps (eat_N _))]; cbn; tauto.
+    + apply ret_weaken_N. tauto.
+  - eapply post_bind; [apply CN_rel|apply skip_ignored_N|intros; apply ret_N].
+Qed.
+
+Lemma push_ignored_rec s a s' : p_push_ignored s = POk (a, s') -> ps_rec s' = ps_rec s.
+Proof.
+  unfold p_push_ignored. destruct (p_push_pending_list _ _); try discriminate. intros [= <- <-]. reflexivity.
+Qed.
+
+(* start_node with a current token that is not ignored: only the builder changes *)
+Lemma start_node_runN k t s :
+  NPinv s -> ps_cur s = Some t -> p_is_ignored_kind (tok_kind t) = false ->
+  exists s', p_start_node k s = POk (tt, s') /\ NPinv s' /\ ps_cur s' = Some t /\
+             (length (pb_children (ps_builder s)) <= length (pb_children (ps_builder s')))%nat /\
+             pb_parents (ps_builder s') = (k, length (pb_children (ps_builder s'))) :: pb_parents (ps_builder s) /\
+             ps_rec s' = ps_rec s.
+Proof.
+  intros Hi Hc Hk. unfold p_start_node, p_bind at 1.
+  destruct (push_ignored_runN s Hi) as (s1 & E1 & Hi1 & Hr1 & Hp1 & Hc1 & Hit1 & Hl1).
+  pose proof (push_ignored_rec _ _ _ E1) as Hrec1. rewrite E1.
+  unfold p_bind at 1, p_modify at 1.
+  destruct (start_raw_run k s1 Hi1) as (Hi2 & Hpar2 & Hch2). cbv zeta in *.
+  unfold p_skip_ignored. psimpl. rewrite Hc1, Hc, Hk.
+  eexists. split; [reflexivity|]. psimpl. split; [exact Hi2|]. split; [congruence|].
+  rewrite Hch2. split; [exact Hl1|]. destruct Hr1 as (Hp & Hrc). split; [rewrite Hpar2, Hp; reflexivity|].
+  exact Hrec1.
+Qed.
+Lemma finish_node_rec s a s' : p_finish_node s = POk (a, s') -> ps_rec s' = ps_rec s.
+Proof. unfold p_finish_node, p_lift_b. destruct (pb_finish_node _); try discriminate. intros [= <- <-]. reflexivity. Qed.
+
+(* the Name branch of ty::parse *)
+Lemma name_branch_N ps cp t :
+  tok_kind t = TkName ->
+  post CN (fun s => (NPinv s /\ ps_cur s = Some t) /\ Jb ps cp s) (fun s => NPinv s /\ Jb ps cp s)
+    (p_node SK_NAMED_TYPE (p_node SK_NAME (
+       token <- p_pop ;; g_validate_name (tok_data token) ;; p_push_token SK_IDENT token))).
+Proof.
+  intros Hk s [[Hi Hc] [Hpar Hlen]].
+  assert (Hig : p_is_ignored_kind (tok_kind t) = false) by (rewrite Hk; reflexivity).
+  pose proof (cur_valid s t Hi Hc Hk) as Hv.
+  unfold p_node at 1, p_bind at 1.
+  destruct (start_node_runN SK_NAMED_TYPE t s Hi Hc Hig) as (s1 & -> & Hi1 & Hc1 & Hl1 & Hp1 & Hr1).
+  unfold p_bind at 1, p_node at 1, p_bind at 1.
+  destruct (start_node_runN SK_NAME t s1 Hi1 Hc1 Hig) as (s2 & -> & Hi2 & Hc2 & Hl2 & Hp2 & Hr2).
+  unfold p_bind at 1, p_bind at 1, p_pop. rewrite Hc2.
+  unfold p_bind at 1. rewrite (validate_name_valid _ _ Hv).
+  unfold p_push_token, p_modify.
+  set (s3 := ps_set_builder _ (ps_set_cur None s2)).
+  assert (Hi3 : NPinv s3).
+  { destruct Hi2 as (Hp & Hb & Hn & Hd). unfold s3. repeat split; auto.
+    - psimpl. apply bwf_token. exact Hb.
+    - unfold names_ok in *. psimpl. rewrite Hc2 in Hn. cbn [cur_item app] in *. inversion Hn; auto. }
+  assert (Hin3 : inside SK_NAME (length (pb_children (ps_builder s2)))
+                   ((SK_NAMED_TYPE, length (pb_children (ps_builder s1))) :: pb_parents (ps_builder s)) s3).
+  { split; [exact Hi3|]. unfold s3. psimpl. cbn [pb_token pb_parents pb_children length].
+    split; [rewrite Hp2, Hp1; reflexivity|lia]. }
+  unfold p_bind at 1.
+  destruct (finish_node_inside _ _ _ _ Hin3) as (s4 & E4 & Hi4 & Hp4 & Hl4 & Hr4 & _). rewrite E4. cbn [p_ret].
+  assert (Hin4 : inside SK_NAMED_TYPE (length (pb_children (ps_builder s1))) (pb_parents (ps_builder s)) s4).
+  { split; [exact Hi4|]. split; [exact Hp4|lia]. }
+  unfold p_bind at 1.
+  destruct (finish_node_inside _ _ _ _ Hin4) as (s5 & E5 & Hi5 & Hp5 & Hl5 & Hr5 & _). rewrite E5. cbn [p_ret].
+  split; [split; [exact Hi5|]|].
+  - unfold Jb. split; [congruence|lia].
+  - cbn [CN cRel]. unfold NPrel. split; [congruence|]. rewrite Hr5, Hr4. unfold s3. psimpl. rewrite Hr2, Hr1. reflexivity.
+Qed.
+
+Lemma peek_case_N {A} (f : option tkind -> PM A) (J R : pstate -> Prop) :
+  (forall s a s', p_peek s = POk (a, s') -> J s -> J s') ->
+  post CN (fun s => NPinv s /\ J s) R (f None) ->
+  (forall t, post CN (fun s => (NPinv s /\ ps_cur s = Some t) /\ J s) R (f (Some (tok_kind t)))) ->
+  post CN (fun s => NPinv s /\ J s) R (o <- p_peek ;; f o).
+Proof.
+  intros HJ HN HS s [Hs Hj]. unfold p_bind at 1.
+  destruct (peek_token_runN s Hs) as (o & s1 & E & Hi & Hr & Hc & Hnone).
+  assert (Ep : p_peek s = POk (option_map tok_kind o, s1)).
+  { unfold p_peek, p_bind. rewrite E. reflexivity. }
+  rewrite Ep. pose proof (HJ _ _ _ Ep Hj) as Hj1.
+  destruct o as [t|]; cbn [option_map].
+  - specialize (HS t s1 (conj (conj Hi Hc) Hj1)). destruct (f (Some (tok_kind t)) s1) as [[a s2]| |]; auto.
+    destruct HS as [HR Hr2]. split; auto. eapply (ok_trans CN CN_rel); eauto.
+  - specialize (HN s1 (conj Hi Hj1)). destruct (f None s1) as [[a s2]| |]; auto.
+    destruct HN as [HR Hr2]. split; auto. eapply (ok_trans CN CN_rel); eauto.
+Qed.
+
+Lemma peek_builder s a s' : p_peek s = POk (a, s') -> ps_builder s' = ps_builder s.
+Proof.
+  unfold p_peek. intros E. apply bind_ok in E as (o & s1 & E & Er). unfold p_ret in Er. injection Er as _ <-.
+  eapply peek_token_builder; eauto.
+Qed.
+
+Lemma drop_branch_N ps cp t :
+  post CN (fun s => (NPinv s /\ ps_cur s = Some t) /\ Jb ps cp s) (fun s => NPinv s /\ Jb ps cp s)
+    (t0 <- p_pop ;; p_ghost_dropped t0 ;; p_ret (Some (GTyErr (Some t0)))).
+Proof.
+  apply post_builder_J.
+  - apply post_pop_case. eapply post_bind; [apply CN_rel|apply ghost_N|intros; apply ret_N].
+  - intros s a s' E. apply bind_ok in E as (t0 & s1 & Ep & E).
+    apply bind_ok in E as (u & s2 & Eg & Er). unfold p_ret in Er. injection Er as _ <-.
+    unfold p_ghost_dropped, p_modify in Eg. injection Eg as _ <-.
+    unfold p_pop in Ep. destruct (ps_cur s).
+    + injection Ep as _ <-. reflexivity.
+    + destruct (p_next_token_loop _ _) as [[t1|] s3] eqn:El; [|discriminate]. injection Ep as _ <-.
+      apply next_token_loop_NP in El. destruct El as ((Hb & _) & _). exact Hb.
+Qed.
+
+Lemma parse_body_N rec : spec CN rec -> spec CN (g_parse_body rec).
+Proof.
+  intros Hrec s Hs. unfold g_parse_body, p_bind at 1, p_checkpoint_node, p_bind at 1.
+  destruct (push_ignored_runN s Hs) as (s1 & E1 & Hi1 & Hr1 & _ & _ & _ & Hl1). rewrite E1.
+  match goal with |- context [ (p_bind p_get ?f) s1 ] =>
+    change ((p_bind p_get f) s1) with (POk (pb_checkpoint (ps_builder s1), s1)) end.
+  cbv iota beta. unfold pb_checkpoint.
+  set (cp := length (pb_children (ps_builder s1))).
+  set (ps := pb_parents (ps_builder s1)).
+  assert (Hps : parents_ok ps cp) by (destruct Hi1 as (_ & Hb & _); exact Hb).
+  assert (Hj1 : Jb ps cp s1) by (split; [reflexivity|unfold cp; lia]).
+  (* what follows the branch: return early, or the non-null wrapper *)
+  assert (HK : forall early : option g_tyres,
+            post CN (fun s => NPinv s /\ Jb ps cp s) NPinv
+              (match early with
+               | Some r => p_ret r
+               | None =>
+                   p_skip_ignored ;;
+                   b <- g_peek_is TkBang ;;
+                   p_when b (p_wrap_node cp SK_NON_NULL_TYPE ;; p_eat SK_BANG ;; p_finish_node) ;;
+                   p_skip_ignored ;;
+                   p_ret GTyOk
+               end)).
+  { intros [r|]; [apply ret_weaken_N; tauto|apply parse_tail_N; exact Hps]. }
+  (* everything after the checkpoint, from s1 *)
+  match goal with |- match ?m s1 with _ => _ end =>
+    assert (Hrest : post CN (fun s => NPinv s /\ Jb ps cp s) NPinv m) end.
+  { apply peek_case_N.
+    - intros s0 a s0' E [H1 H2]. unfold Jb. rewrite (peek_builder _ _ _ E). auto.
+    - (* None: return Err(None) *)
+      eapply post_bind with (Q := fun s => NPinv s /\ Jb ps cp s); [apply CN_rel|apply ret_N|exact HK].
+    - intros t.
+      eapply post_bind with (Q := fun s => NPinv s /\ Jb ps cp s); [apply CN_rel| |exact HK].
+      destruct (tok_kind t) eqn:Hk.
+      13:{ (* [ *)
+        intros s0 [[Hi0 Hc0] [Hp0 Hl0]].
+        match goal with |- match ?n s0 with _ => _ end =>
+          assert (Hn : forall s, NPinv s -> match n s with
+                    | POk (_, s') => NPinv s' /\ NPrel s s' /\
+                                     (length (pb_children (ps_builder s)) <= length (pb_children (ps_builder s')))%nat
+                    | PPanic _ => False | POutOfFuel => True end) end.
+        { apply node_len_N.
+          eapply post_bind; [apply CN_rel|apply bump_N|intros _].
+          apply rec_guard_N.
+          - eapply post_bind; [apply CN_rel|apply limit_err_N|intros; apply ret_N].
+          - exact Hrec.
+          - intros x. eapply post_bind; [apply CN_rel| |intros _].
+            + destruct x as [|[tk|]]; try apply ret_N. apply err_at_token_N.
+            + eapply post_bind; [apply CN_rel|apply expect_N|intros; apply ret_N]. }
+        specialize (Hn s0 Hi0).
+        match goal with |- match ?n s0 with _ => _ end => destruct (n s0) as [[a s2]| |]; auto end.
+        destruct Hn as (Hi2 & Hr2 & Hl2). split; [split; [exact Hi2|]|exact Hr2].
+        destruct Hr2 as (Hp2 & _). unfold Jb. split; [congruence|lia]. }
+      18:{ (* Name *)
+        eapply post_bind; [apply CN_rel|apply name_branch_N; exact Hk|intros _]. apply ret_N. }
+      all: apply drop_branch_N. }
+  specialize (Hrest s1 (conj Hi1 Hj1)).
+  match goal with |- match ?m s1 with _ => _ end => destruct (m s1) as [[a s2]| |]; auto end.
+  destruct Hrest as [Hi2 Hr2]. split; [exact Hi2|]. eapply (ok_trans CN CN_rel); eauto.
+Qed.
+
+(* ---- the instance *)
+Lemma CN_ok : pcfg_ok CN.
+Proof.
+  constructor.
+  - exact CN_rel.
+  - exact peek_token_N.
+  - exact skip_ignored_N.
+  - exact push_ignored_N.
+  - exact bump_N.
+  - exact err_N.
+  - exact err_at_token_N.
+  - exact err_at_token_N.
+  - exact limit_err_N.
+  - exact err_and_pop_N.
+  - exact expect_N.
+  - exact node_N.
+  - exact rec_guard_N.
+  - exact rec_guard_N.
+  - exact debug_assert_N.
+  - exact name_N.
+  - exact parse_body_N.
+Qed.
+
+(* ---- document: assert_eq!(p.recursion_limit.current, 0) holds at every definition *)
+Definition balanced (s : pstate) : Prop := ptr_current (ps_rec s) = 0.
+
+Lemma document_N fuel :
+  forall s, NPinv s -> balanced s ->
+    match g_document fuel s with
+    | POk (_, s') => NPinv s' /\ NPrel s s' /\
+                     (ps_pending s = [] -> exists c rest, pb_children (ps_builder s') = PNode SK_DOCUMENT c :: rest /\
+                                                         length rest = length (pb_children (ps_builder s)))
+    | PPanic _ => False
+    | POutOfFuel => True
+    end.
+Proof.
+  intros s Hs Hb. rewrite g_document_unfold.
+  pose proof (node_len_J_N unit SK_DOCUMENT) as Hnode.
+  match goal with |- match p_node _ ?body s with _ => _ end => specialize (Hnode body balanced) end.
+  match goal with |- match ?m s with _ => _ end => assert (H : match m s with
+      | POk (_, s') => NPinv s' /\ NPrel s s' /\ (length (pb_children (ps_builder s)) <= length (pb_children (ps_builder s')))%nat /\
+                     (ps_pending s = [] -> exists c rest, pb_children (ps_builder s') = PNode SK_DOCUMENT c :: rest /\
+                                                         length rest = length (pb_children (ps_builder s)))
+      | PPanic _ => False | POutOfFuel => True end) end.
+  { apply Hnode; auto.
+    - unfold balanced. intros s0 s0' E H0. congruence.
+    - (* the body *)
+      assert (HJ : forall s0 s0', cRel CN s0 s0' -> balanced s0 -> balanced s0').
+      { cbn. unfold balanced. intros s0 s0' (_ & Hc) H0. congruence. }
+      eapply post_bind with (Q := fun s0 => NPinv s0 /\ balanced s0);
+        [apply CN_rel|apply (post_J CN balanced); [exact HJ|apply peek_N]|intros o].
+      eapply post_bind with (Q := fun s0 => NPinv s0 /\ balanced s0); [apply CN_rel| |intros _].
+      + apply (post_J CN balanced); [exact HJ|]. destruct (match o with None | Some TkEof => true | _ => false end);
+          cbn [p_when]; [apply err_N|apply ret_N].
+      + eapply post_bind with (Q := fun s0 => NPinv s0 /\ balanced s0); [apply CN_rel| |intros _].
+        * apply (gg_peek_while_J CN CN_ok balanced); [exact HJ|]. intros k.
+          eapply post_bind with (Q := NPinv); [apply CN_rel| |intros _; apply (gg_document_step CN CN_ok)].
+          intros s0 [Hi0 Hb0]. unfold g_assert_recursion_balanced. unfold balanced in Hb0. rewrite Hb0.
+          cbn. split; [exact Hi0|apply (ok_refl CN CN_rel)].
+        * eapply post_weaken; [| |apply push_ignored_N]; cbn; tauto. }
+  destruct (p_node SK_DOCUMENT _ s) as [[a s']| |]; auto. tauto.
+Qed.
+
+(* ---- the entries *)
+Lemma init_NPinv rl items : Forall item_name_ok items -> NPinv (p_init_state false rl items).
+Proof. intros H. repeat split; cbn; auto. Qed.
+
+Lemma finish_root k c s : pb_children (ps_builder s) = [PNode k c] -> forall u w, p_finish (POk (u, s)) <> PPanic w.
+Proof. intros H u w. unfold p_finish, pb_finish. rewrite H. discriminate. Qed.
+
+Lemma root_shape (k : skind) (s0 s' : pstate) :
+  pb_children (ps_builder s0) = [] ->
+  (exists c rest, pb_children (ps_builder s') = PNode k c :: rest /\ length rest = length (pb_children (ps_builder s0))) ->
+  exists c, pb_children (ps_builder s') = [PNode k c].
+Proof.
+  intros H0 (c & rest & Hc & Hl). rewrite H0 in Hl. destruct rest; [|discriminate]. eauto.
+Qed.
+
+Theorem document_no_panic fuel rl items w :
+  Forall item_name_ok items -> parse_document_fuel fuel false rl items <> PPanic w.
+Proof.
+  intros Hn. unfold parse_document_fuel, p_run_with.
+  pose proof (document_N fuel _ (init_NPinv rl items Hn) eq_refl) as H.
+  destruct (g_document fuel (p_init_state false rl items)) as [[u s']| |]; [|contradiction|discriminate].
+  destruct H as (_ & _ & Hshape). destruct (root_shape SK_DOCUMENT (p_init_state false rl items) s' eq_refl (Hshape eq_refl)) as [c Hc].
+  eapply finish_root; eauto.
+Qed.
+
+Lemma root_node_no_panic k (body : PM unit) rl items w :
+  spec CN body -> Forall item_name_ok items ->
+  p_finish (p_node k body (p_init_state false rl items)) <> PPanic w.
+Proof.
+  intros Hb Hn.
+  assert (H : post CN (fun s => NPinv s /\ True) NPinv body) by (eapply post_weaken; [| |exact Hb]; cbn; tauto).
+  pose proof (node_len_J_N unit k body (fun _ => True) (fun _ _ _ _ => I) H _ (init_NPinv rl items Hn) I) as Hnode.
+  destruct (p_node k body (p_init_state false rl items)) as [[u s']| |]; [|contradiction|discriminate].
+  destruct Hnode as (_ & _ & _ & Hshape). destruct (root_shape k (p_init_state false rl items) s' eq_refl (Hshape eq_refl)) as [c Hc].
+  eapply finish_root; eauto.
+Qed.
+
+Theorem type_no_panic fuel rl items w :
+  Forall item_name_ok items -> parse_type_fuel fuel false rl items <> PPanic w.
+Proof.
+  intros Hn. unfold parse_type_fuel, p_run_with, g_type_entry. apply root_node_no_panic; [|exact Hn].
+  eapply post_bind; [apply CN_rel|apply (gg_ty CN CN_ok)|intros; apply (gg_trailing CN CN_ok)].
+Qed.
+
+Theorem selection_set_no_panic fuel rl items w :
+  Forall item_name_ok items -> parse_selection_set_fuel fuel false rl items <> PPanic w.
+Proof.
+  intros Hn. unfold parse_selection_set_fuel, p_run_with, g_field_set. apply root_node_no_panic; [|exact Hn].
+  pose proof CN_ok as H. gfull.
+Qed.
+
+(* SyntaxTree::<Type>::ty() cannot panic any more (no unreachable!): p_tree_ty is a total function. *)
